@@ -1,1 +1,7 @@
-/-! # C06 — property theorems (not built yet) -/
+import RsMatterVerif.Model.Expand
+import RsMatterVerif.Props.C05
+/-! # C06 — every Interaction Model operation is mediated by the access check -/
+namespace C06
+open Acl Expand
+
+end C06
